@@ -13,8 +13,7 @@ RULE = ("small conformant libovni programs (1-3 threads, explicit flushes, event
         "with a generated readdir order (LD_PRELOAD shim) so that both 'metadata first' and 'data first' "
         "relocation orders occur, and in a third of the programs every write() of the runtime split in two real system calls (kill inside a logical write); one dry run under strace lists the runtime's system calls, then ONE RUN PER "
         "CRASH POINT: SIGKILL injected at the entry of the k-th mkdir/openat/write/close/unlink/rmdir/getdents64/"
-        "read of a thread, for every k.  Progress witness F_t = bytes the killed run successfully wrote to thread "
-        "t's primary stream.obs (from the strace log).  Oracle on the directory handed to ovniemu: (S1) if "
+        "read of a thread, for every k.  Progress witness F_t = the larger of (bytes the killed run successfully wrote to thread t's primary stream.obs, from the strace log) and (bytes covered by the ovni_flush() calls that had returned, from the driver's log).  Oracle on the directory handed to ovniemu: (S1) if "
         "ovniemu -l exits 0, every visible stream holds at least its F_t flushed bytes, equal to the expected "
         "prefix; (S2) a visible stream.json that says finished=1 has all F_t bytes beside it.  "
         "Non-trivial = crash point inside ovni_thread_free; distinct = (program, readdir order, syscall, k).")
@@ -147,6 +146,14 @@ def run(case, ctx):
         full = {}
         for t in range(nth):
             full[t] = open(os.path.join(thread_dir(dry.tracedir, t), "stream.obs"), "rb").read()
+        # API-level progress: bytes that an ovni_flush() which RETURNED has flushed.  The
+        # j-th explicit flush covers everything before the j-th OF[ marker of the
+        # fault-free stream (its own markers are emitted after the write).
+        flush_lines = {t: [i for i, l in enumerate(lines, 1) if l == "T%d flush" % t] for t in range(nth)}
+        marker_off = {}
+        for t in range(nth):
+            offs = [e.offset for e in obs.decode_stream(full[t]) if e.mcv == "OF["]
+            marker_off[t] = offs
         cnt = inject.counts(dry.calls)
         # in which (syscall,k) region does thread_free of some thread lie: from its final stream.json write on
         points = [(s, k) for s in inject.SYSCALLS for k in range(1, cnt.get(s, 0) + 1)]
@@ -179,6 +186,11 @@ def run(case, ctx):
                     continue
                 ppath = os.path.normpath(os.path.join(thread_dir(primary_root, t), "stream.obs"))
                 ft = F.get(ppath, 0)
+                log = r.logs.get("T%d" % t, {})
+                j = sum(1 for ln in flush_lines[t] if log.get(ln, ("", []))[0] == "ok")
+                if j > 0:
+                    f_api = marker_off[t][j - 1] if j - 1 < len(marker_off[t]) else len(full[t])
+                    ft = max(ft, f_api)
                 try:
                     data = open(os.path.join(vis, "stream.obs"), "rb").read()
                 except OSError:
